@@ -35,6 +35,8 @@ class Ctx:
         self.coverage = {}
         self.assumptions = []
         self.notes = []
+        if replay is None:
+            shutil.rmtree(os.path.join(VERIF, "replay", prop), ignore_errors=True)  # stale artefacts
         self.scratch = tempfile.mkdtemp(prefix="auverif_%s_" % prop)
         atexit.register(self._cleanup)
         self._known = load_known(prop)
